@@ -5,7 +5,7 @@ UNIT = {
              'non-periodic dimensions have the upper neighbour inside the grid (expanded PMF grid), as the code comments state'],
  'tasks': [
   {'id': 'update_div_neighbors', 'properties': ['C16'], 'slices': ['update_div_neighbors'], 'harness': 'h_update_div_neighbors', 'enforce': 'k_update_div_neighbors',
-   'replace': ['k_wrap', 'k_update_div_local'], 'unwind': 20, 'object_bits': 10, 'bounded': 'nd <= 3 (the function handles nd = 1, 2, 3 only)',
+   'replace': ['k_wrap', 'k_update_div_local'], 'unwind': 20, 'object_bits': 10,   # nd in {1,2,3} is the function's whole domain and its loops have fixed trip counts: not a bounded stand-in
    'mutants': [('ix[1]++; wrap(ix);', 'ix[1]++;'), ('ix[0]--; wrap(ix);', 'ix[0]++; wrap(ix);'), ('ix[2] = ix0[2];', 'ix[2] = ix0[1];'), ('ix[2]++;', 'ix[2]--;'), ('for (k = 0; k<2; k++) {', 'for (k = 0; k<1; k++) {')]},
  ],
 }
